@@ -1135,7 +1135,9 @@ where
         handler: &TActor,
         arguments: TActor::Arguments,
     ) -> Result<Result<TActor::State, ActorProcessingErr>, SpawnErr> {
-        let future = handler.pre_start(myself, arguments);
+        // the hook is called inside the guarded future: one written as `fn pre_start(..) -> impl Future`
+        // can panic before it returns its future, and that panic is the hook's just the same
+        let future = async move { handler.pre_start(myself, arguments).await };
         futures::FutureExt::catch_unwind(AssertUnwindSafe(future))
             .await
             .map_err(|err| SpawnErr::StartupFailed(get_panic_string(err)))
@@ -1146,7 +1148,9 @@ where
         handler: &TActor,
         state: &mut TActor::State,
     ) -> Result<Result<(), ActorProcessingErr>, ActorErr> {
-        let future = handler.post_start(myself, state);
+        // the hook is called inside the guarded future: one written as `fn post_start(..) -> impl Future`
+        // can panic before it returns its future, and that panic is the hook's just the same
+        let future = async move { handler.post_start(myself, state).await };
         futures::FutureExt::catch_unwind(AssertUnwindSafe(future))
             .await
             .map_err(|err| ActorErr::Failed(get_panic_string(err)))
@@ -1157,7 +1161,9 @@ where
         handler: &TActor,
         state: &mut TActor::State,
     ) -> Result<Result<(), ActorProcessingErr>, ActorErr> {
-        let future = handler.post_stop(myself, state);
+        // the hook is called inside the guarded future: one written as `fn post_stop(..) -> impl Future`
+        // can panic before it returns its future, and that panic is the hook's just the same
+        let future = async move { handler.post_stop(myself, state).await };
         futures::FutureExt::catch_unwind(AssertUnwindSafe(future))
             .await
             .map_err(|err| ActorErr::Failed(get_panic_string(err)))
